@@ -236,6 +236,13 @@ func (ux *updateTx) UpdateChainIndexElementProofs(updater wallet.ProofUpdater) e
 // should be added and any siacoin elements that were spent should be
 // removed.
 func (ux *updateTx) WalletApplyIndex(index types.ChainIndex, created, spent []types.SiacoinElement, events []wallet.Event, timestamp time.Time) error {
+	// get the matured balance before any element is removed: an element may
+	// be spent in the block in which it matures
+	matured, err := maturedSiacoinBalance(ux.tx, index)
+	if err != nil {
+		return fmt.Errorf("failed to query matured siacoin balance: %w", err)
+	}
+
 	matureOutflow, immatureOutflow, err := deleteSiacoinElements(ux.tx, index, spent)
 	if err != nil {
 		return fmt.Errorf("failed to delete siacoin elements: %w", err)
@@ -247,11 +254,6 @@ func (ux *updateTx) WalletApplyIndex(index types.ChainIndex, created, spent []ty
 		return fmt.Errorf("failed to create wallet events: %w", err)
 	}
 
-	// get the matured balance
-	matured, err := maturedSiacoinBalance(ux.tx, index)
-	if err != nil {
-		return fmt.Errorf("failed to query matured siacoin balance: %w", err)
-	}
 	// apply the maturation by adding the matured balance to the matured inflow
 	// and the immature outflow
 	matureInflow = matureInflow.Add(matured)
